@@ -10,11 +10,20 @@ import struct
 from types import SimpleNamespace
 
 from . import common as C
+from . import textlayer as T
 from . import wiregen as W
 
-TRUSTED = ["text layer of names (split('.'), UTF-8 encode/decode, join) is glue exercised by the byte-exact differential, not modelled",
-           "remaining-TTL arithmetic on integer milliseconds only"]
-ASSUMPTIONS = ["names are handed to the builder as str; labels are compared as UTF-8 bytes"]
+TRUSTED = ["text layer of names: modelled (Zc.NameText: strip one trailing dot, split('.'), per-label UTF-8, '.'.join, str-keyed names table) and "
+           "proved against the label-list encoder model (C01_names_table_text_keys, C01_roundtrip_text); the driver is fed the *text* of every name "
+           "(`=<hex of its UTF-8>`) and splits/encodes itself; CPython's str.split / str.encode / bytes.decode are the reference it is compared with",
+           "lone surrogates in names (UnicodeEncodeError) are not text and are not generated",
+           "remaining-TTL arithmetic on integer milliseconds only",
+           "Zeroconf.async_send is driven with a recording transport on an object made by Zeroconf.__new__ (no sockets, no loop): only the loop over "
+           "out.packets() and its size guard are exercised"]
+ASSUMPTIONS = ["names are handed to the builder as str; what must come back is the same str (with its trailing dot) from the library's decoder and from "
+               "the strict decoder's labels read as _read_name reads them (model: textOfLabels), and the same labels from the strict decoder",
+               "a remaining TTL is asked for at a time not before the record's creation (Props/C01 NowNotBeforeCreated); otherwise it may exceed 2^32-1 "
+               "(struct.error): outside the quantifier, compared byte-exactly only"]
 
 # staged features (switched on by the commits that bring the model side / the known-findings entry)
 SEND_PATH = True     # C14: follow the datagrams through Zeroconf.async_send (needs the driver command `sendlens`)
@@ -88,7 +97,9 @@ def lib_decode(pkt):
             return None
         qs = [W.lib_question_tuple(q) for q in inc.questions]
         recs = [W.lib_record_tuple(r) for r in inc.answers()]
-        return (inc.id, inc.flags, qs, recs, (inc.num_questions, inc.num_answers, inc.num_authorities, inc.num_additionals))
+        tqs = [W.lib_question_tuple_text(q) for q in inc.questions]
+        trecs = [W.lib_record_tuple_text(r) for r in inc.answers()]
+        return (inc.id, inc.flags, qs, recs, (inc.num_questions, inc.num_answers, inc.num_authorities, inc.num_additionals), tqs, trecs)
     except Exception as ex:  # noqa: BLE001
         return ("exc", type(ex).__name__)
 
@@ -247,7 +258,7 @@ def boundary_seek(gm, rng):
     return gm
 
 
-def predicates(res, gm, pk, strict_lines, prop, case=None):
+def predicates(res, gm, pk, strict_lines, prop, case=None, text_lines=None):
     """the property's own sentences on the implementation's packets: -> list of (sig, what), every predicate that fails
     (a known finding about one datagram must not stop the judgement of the rest of the message)"""
     if not gm.in_quantifier():
@@ -310,6 +321,19 @@ def predicates(res, gm, pk, strict_lines, prop, case=None):
         lost = sum(len(b) - len(a) for n, a, b in (("q", gq, exq), ("an", gan, exan), ("au", gau, exau), ("ad", gad, exad)))
         out.append(("%s:roundtrip-strict:%s:%s" % (prop, ",".join(which), "count" if lost else "content"),
                     "decoding the emitted datagrams with the strict decoder does not give back the %s handed to the builder" % "/".join(which)))
+    # --- the same on the *strings*: the strict decoder's labels read back as _read_name reads them (model: textOfLabels)
+    if text_lines and all(tl is not None and tl.startswith("ok ") for tl in text_lines):
+        tdec = [W.parse_wmsg(tl[3:], text=True) for tl in text_lines]
+        tq = [x for d in tdec for x in d[2]]
+        tsec = [[x for d in tdec for x in d[i]] for i in (3, 4, 5)]
+        txq, txan, txau, txad = gm.expect_text()
+        res.count("text:strict-names-read-as-text-compared")
+        if (tq, tsec[0], tsec[1], tsec[2]) != (txq, txan, txau, txad):
+            which = [n for n, a, b in (("questions", tq, txq), ("answers", tsec[0], txan), ("authorities", tsec[1], txau), ("additionals", tsec[2], txad)) if a != b]
+            out.append(("%s:roundtrip-strict-text:%s" % (prop, ",".join(which)),
+                        "the names the strict decoder recovers, read as text, are not the strings handed to the builder (%s)" % "/".join(which)))
+    elif text_lines:
+        res.count("text:strict-names-read-as-text-skipped (a datagram the Lean strict decoder rejects: D21)")
     # --- header: id, TC bit, the other flag bits
     want_id = 0 if gm.multicast else gm.id
     is_query = (gm.flags & 0x8000) == 0
@@ -333,7 +357,9 @@ def predicates(res, gm, pk, strict_lines, prop, case=None):
             out.append(("%s:over-1460-with-%d-entries" % (prop, n), "a %d-byte datagram carries %d entries" % (len(p), n)))
             break
     # --- the library's own decoder
+    txq, txan, txau, txad = gm.expect_text()
     lq, lan, lau, lad = [], [], [], []
+    ltq, ltan, ltau, ltad = [], [], [], []
     for p in pk:
         d = lib_decode(p)
         if d is None or d[0] == "exc":
@@ -350,6 +376,16 @@ def predicates(res, gm, pk, strict_lines, prop, case=None):
         lan += recs[:na]
         lau += recs[na:na + nu]
         lad += recs[na + nu:]
+        ltq += d[5]
+        ltan += d[6][:na]
+        ltau += d[6][na:na + nu]
+        ltad += d[6][na + nu:]
+    # the strings themselves, as the library shows them (no splitting by the harness)
+    res.count("text:library-names-compared-as-str")
+    for nm, got, want in (("questions", ltq, txq), ("answers", ltan, txan), ("authorities", ltau, txau), ("additionals", ltad, txad)):
+        if list(map(repr, got)) != list(map(repr, want)):
+            out.append(("%s:roundtrip-lib-text:%s" % (prop, nm), "DNSIncoming does not give back the %s with the names spelled as handed to the builder" % nm))
+            break
     if lq != exq:
         out.append(("%s:roundtrip-lib:questions" % prop, "DNSIncoming does not give back the questions"))
     for nm, got, want in (("answers", lan, exan), ("authorities", lau, exau), ("additionals", lad, exad)):
@@ -409,6 +445,8 @@ def run_prop(ctx, prop, size_bias=None):
                 if len(p) <= 9000:
                     lines.append("strict " + p.hex())
                     idx.append(("strict", k, j))
+                    lines.append("stricttext " + p.hex())
+                    idx.append(("stricttext", k, j))
             if sent[k] is not None:
                 lines.append("sendlens " + (" ".join(str(len(p)) for p in iv) or "-"))
                 idx.append(("send", k, None))
@@ -421,19 +459,22 @@ def run_prop(ctx, prop, size_bias=None):
     enc_out = {}
     strict_out = {}
     send_out = {}
+    text_out = {}
     if model is not None:
         for (what, k, j), out in zip(idx, model):
             if what == "enc":
                 enc_out[k] = out
             elif what == "send":
                 send_out[k] = out
-            else:
+            elif what == "strict":
                 strict_out[(k, j)] = out
-    res.rule = ("seeded messages from a vocabulary of names with shared suffixes / case variants / non-ASCII incl. 4-byte UTF-8 / dotted labels / labels of 1-63 bytes "
+            else:
+                text_out[(k, j)] = out
+    res.rule = ("names are given to the model as text (it splits and encodes); seeded messages from a vocabulary of names with shared suffixes / case variants / non-ASCII incl. U+FFFD and 4-byte UTF-8 / dotted labels / no trailing dot / labels of 1-63 bytes "
                 "(62-65 emphasised), names up to 253 characters / 255 octets, all 7 record kinds, 16-bit question types, 15-bit classes, 16-bit flags, SRV fields 0-65535, "
                 "NSEC types 0-255 (up to 40 per record), TTL incl. 0 and 2^32-1, remaining-TTL answers around expiry (and `now` before `created`), 0-400 entries per section "
                 "(authorities 0-300, any kind), TXT payloads steered onto the 1460 and 8966 boundaries (second pass using the implementation's own packet length), names of "
-                "more than 255 octets (finding D21) in a minority of messages, plus a malformed stream (labels 64-300, strings 256+, bad NSEC); every datagram is decoded by two "
+                "more than 255 octets (finding D21) in a minority of messages, plus a malformed stream (labels 64-300, strings 256+, bad NSEC, the names '', '.', '..', 'a..b', '.a', 'a.b..'), plus sequences of write_name calls with the names table compared; every datagram is decoded by two "
                 "independent strict decoders (Lean and Python) and by the library; C14 also pushes every message through Zeroconf.async_send with a recording transport; "
                 "non-trivial = distinct (size class, #packets, kinds present, multicast, query, outcome) signatures")
     for k, ((kind, m), (ik, iv)) in enumerate(zip(cases, impl)):
@@ -484,7 +525,8 @@ def run_prop(ctx, prop, size_bias=None):
                             ("returns %d datagram(s) (%s...) that do not carry the rejected entry" % (len(av), av[0].hex()[:80] if av else "") if ak == "ok" else "raises %s" % av), case)
             continue
         sl = [strict_out.get((k, j)) for j in range(len(iv))] if model is not None else [None] * len(iv)
-        for sig, what in predicates(res, m, iv, sl, prop, case):
+        tl = [text_out.get((k, j)) for j in range(len(iv))] if model is not None else None
+        for sig, what in predicates(res, m, iv, sl, prop, case, tl):
             res.violate(sig, what, case)
         # the send path: every datagram the builder made (all are <= 8966 here) leaves, once, in order
         if sent[k] is not None:
@@ -502,6 +544,8 @@ def run_prop(ctx, prop, size_bias=None):
                     res.violate("%s:send-path-drops-datagram-of-%s-bytes" % (prop, "exactly-8966" if size == 8966 else "at-most-8965" if 0 <= size else "no"),
                                 "the builder made datagrams of %s bytes, async_send let %s bytes leave: datagram %d (%d bytes, within the 8966 limit) and everything "
                                 "behind it is not sent" % ([len(p) for p in iv][:8], [len(p) for p in sv][:8], first + 1, size), case)
+    # the text layer on its own: sequences of write_name(str) on one packet, bytes and the str-keyed names table
+    T.write_stream(res, rng, ctx["tier"], model is not None, g.name)
     return res
 
 
